@@ -16,6 +16,11 @@ FOLLOW = ["", "x", "0", "é", "€", "\U0001F600", "\\", "\"", "u", "\\\\", "\\u
 PREFIX = ["", "a", "é", "\U0001F600", "\\\\", "ab€"]
 
 
+import re
+# a string-literal body the Fluent grammar accepts: no quote, backslash or line break outside the four escape forms
+LITERAL_BODY = re.compile(r'(?:[^"\\\r\n]|\\\\|\\"|\\u[0-9a-fA-F]{4}|\\U[0-9a-fA-F]{6})*')
+
+
 def is_scalar(v):
     return v < 0xD800 or 0xDFFF < v < 0x110000
 
@@ -228,6 +233,8 @@ class C13(Base):
             return "input without a backslash changed"
         if unhx(wp[1]) != b"[" + out:
             return "writer form %s != '[' + string form %s" % (wp[1], sp[1])
+        if LITERAL_BODY.fullmatch(s) and d.get("f", "na") == "na":
+            return "the parser does not admit a string literal whose escapes are all well-formed (\\\\, \\\", \\uXXXX, \\UXXXXXX with hex digits of either case)"
         for k in ("f", "r", "k", "t", "q"):
             v = d.get(k, "na")
             if v.startswith("na"):
